@@ -62,7 +62,7 @@ fn cross_plan(prop: &str, thorough: bool) -> Option<(universal::Oracle, bool, Ve
 
 pub fn dispatch(prop: &str, ctx: &Ctx, rep: &mut Report) -> bool {
     if let (Some(case), Some((o, tol, _))) = (&ctx.replay, cross_plan(prop, false)) {
-        if universal::replay(case, rep, o, tol) {
+        if universal::replay(case, rep, o, tol, prop == "C07") {
             return true;
         }
     }
@@ -72,7 +72,8 @@ pub fn dispatch(prop: &str, ctx: &Ctx, rep: &mut Report) -> bool {
     if ctx.replay.is_none() && !universal::IN_CROSS.load(std::sync::atomic::Ordering::SeqCst) {
         if let Some((o, tol, hosts)) = cross_plan(prop, ctx.tier.is_thorough()) {
             universal::watch_panics(prop == "C02");
-            universal::run_hosts(rep, ctx.tier, o, tol, &hosts);
+            // C07's region-fidelity part also judges the later dumps of re-used writers
+            universal::run_hosts_ext(rep, ctx.tier, o, tol, prop == "C07", &hosts);
             universal::watch_panics(false);
             if prop == "C02" {
                 rep.set("cross_dump_requests_watched_for_panic_and_hang", mdv_core::json!(universal::requests_seen()));
